@@ -239,6 +239,14 @@ def big_pairs(tier, rng, kinds=None):
             padding = ("padding", "x" * size) if pad == "s" else ("padding", ["y"] * (size // 4))
             big = http_line("sync" if ki % 2 else "async", kind, False, 200, b"application/json", D.render(D.obj(m + [padding]), rng, plain=True))
             pairs.append((small, big))
+        # the same for the error document of a non-200 reply (unknown members of an error document are skipped: C14_unknown_skipped)
+        em = [("error", "invalid_grant"), ("error_description", "d\u00e9sol\u00e9"), ("error_uri", "https://e/x")]
+        esmall = http_line("sync" if ki % 2 else "async", kind, False, 400, b"application/json", D.render(D.obj(em), rng, plain=True))
+        for size in (1048577, 2 * 1048576 + 3):
+            if tier == "quick" and (ki + size) % 2 == 0:
+                continue
+            ebig = http_line("sync" if ki % 2 else "async", kind, False, 400, b"application/json", D.render(D.obj(em + [("padding", "x" * size)]), rng, plain=True))
+            pairs.append((esmall, ebig))
         # reply sizes around the integers that are new in the source (gen/srclit.py), above what the extracted model takes directly
         from gen import srclit as S
         for n in S.sizes(limit=24 * 1048576, lo=300001):
